@@ -68,6 +68,12 @@ def renderOps (op : String) (j : Json) : Option (Except String Json) :=
     let vars := match ctxV with
       | .map kvs => kvs
       | _ => []
+    let globalsV ← match j.getObjVal? "globals" with
+      | .ok c => valOfJson c
+      | .error _ => pure (.map [])
+    let globals := match globalsV with
+      | .map kvs => kvs
+      | _ => []
     let pol := j.getObjVal? "policy"
     let (hasPolicy, af, afn) ← match pol with
       | .ok (.obj o) => do
@@ -83,7 +89,7 @@ def renderOps (op : String) (j : Json) : Option (Except String Json) :=
       let E : Env := { tpls := parsed, F := facts, hasPolicy := hasPolicy, allowedFilters := af, allowedFunctions := afn,
                        spyFilters := (bytesList spy "filters").toOption.getD [],
                        spyFunctions := (bytesList spy "functions").toOption.getD [],
-                       spyTests := (bytesList spy "tests").toOption.getD [], failAt := failAt }
+                       spyTests := (bytesList spy "tests").toOption.getD [], failAt := failAt, globals := globals }
       match renderTop E main vars with
       | .error e => pure (errJson e)
       | .ok (out, trace) =>
